@@ -24,6 +24,8 @@ TRUSTED_BASE = [
     "axioms of every property theorem ⊆ {propext, Classical.choice, Quot.sound} (printed by Rbacx/Audit.lean on every run)",
     "hand-written model lean/Rbacx/Model/*.lean, tied to /repo by the correspondence harness (differential, this run) and harness/extract.py",
     "oracles computed by the harness without calling rbacx: CPython str()/float()/datetime parsing, json, hashlib",
+    "where a check uses the source-to-Lean translation (C03, C17): harness/pytolean.py and the meaning of Python's operations in "
+    "lean/Rbacx/Model/PyLib.lean, both validated against CPython on every run (Run/SrcEval.lean)",
 ]
 
 
